@@ -176,7 +176,7 @@ PROPS = {
         trusted_base=['urllib.parse.unquote total', 'uniqueness of the decomposition of a string into &-segments (meta-argument)'],
     ),
     'C03': dict(
-        level='other', contracts=['C03', 'wsgi', 'cast', 'static_file', 'C17'], frames=['exc_classes'],
+        level='other', contracts=['C03', 'wsgi', 'cast', 'static_file', 'C17', 'glue'], frames=['exc_classes'],
         technique='bounded run-time contract check: independent PEP 3333 validator as postcondition of Ombott.__call__ over an enumerated '
                   'space of handler programs x methods x statuses x hook configurations',
         explanation='BOUNDED: exhaustive product of handler programs (coverage.bounded). PROVED per function: wsgi (one start_response after '
@@ -324,3 +324,20 @@ PROPS = {
 }
 
 NOT_APPLICABLE = {}
+
+# ---- additions of the last rounds (glue between the parsers / the router and the user; see DESIGN.md sections 0 and 9)
+_MORE = {
+    'C03': ' The application-level hook wrappers (Ombott.on and its decorator, remove_hook) and the file helpers (static_file, '
+           '_file_iter_range: the announced length is the delivered length) are under contract as well.',
+    'C04': ' The cache_in closures that keep the body in the environ (computed once, stored under the key, read-only) are under contract; '
+           'frame cache_keys: the key of _body is the one a replaced wsgi.input invalidates.',
+    'C10': ' No class-level mutable is handed out by a method (frame rule escape.returned); the cache_in closures keep every derived request '
+           'attribute in the request\'s own environ, and no two attributes share a key (frame cache_keys).',
+    'C12': ' Request.copy keeps the configuration (limits, error map); forms / files hand out the environ entry POST filled.',
+    'C13': ' Request.copy keeps the configuration: a copy reads the body under the same limits.',
+    'C14': ' Frame header_store: no code writes into the raw header store except the validating dictionary and the listed sites.',
+    'C18': ' BodyMixin.query parses exactly QUERY_STRING, once, into the dict it returns; the cache under which it is kept is the one a changed '
+           'QUERY_STRING drops (cache_in closures, frame cache_keys, _on_env_changed).',
+}
+for _p, _t in _MORE.items():
+    PROPS[_p]['level_text'] = PROPS[_p].get('level_text', '') + _t
